@@ -111,23 +111,27 @@ CHECKS = {
                   "states) with every truncation, bit flips, zero fills and garbage tails: resulting files compared byte for byte with the "
                   "model and judged by an independent encoder-based reference parser (RecoverSpec.v); re-check and append after recover.",
              ref='6/C07', technique='Coq proof (decoder soundness, longest-valid-prefix, Check iff, idempotence) + byte-level differential sweep'),
- 'C05': dict(text="Partial. Proved (Coq) at the level of one segment's files, for every checksum function: a crash part-way through the "
-                  "append of a record (any proper prefix of it on disk) after any number of complete records, whatever the index file "
-                  "holds, is recovered to exactly the complete records (published messages, possibly followed by a prefix of the batch); a "
-                  "crash between appends leaves the log file unchanged; whatever Recover returns consists only of valid records of the "
-                  "old file from its start (nothing invented); the result passes Check, a second Recover changes nothing, and the file "
-                  "can be appended to and still passes Check; reopening then re-establishes Inv (C01/C11 theorems), from which the "
-                  "agreement of Consume/Get/Stat follows. NOT proved in Coq: the multi-file step sequences of rollover, delete-by-rewrite, "
-                  "Recover's own temp files and Migrate (rename/remove/dir-sync orders) - these are decided by the crash harness only. "
-                  "Tied to /repo by the FS tap (tag verif): 40+ workloads (publish batches with rollover, all delete shapes, reopen with "
-                  "Recover, migrate), a directory image after every file-system step plus torn variants of every append; each image is "
-                  "opened with Recover on the implementation and on the model (loaded from the same bytes): full observation compared, "
-                  "acked-state oracle (published-and-not-deleted, prefix of in-flight batch, delete all-or-nothing), views agree, "
-                  "NextOffset monotone, second Recover identical, append + Check. Two genuine defects are recorded as known findings "
-                  "(F6 rebasing-delete swap window, F14 V1 first record torn in its first 8 bytes); five others were fixed.",
-             ref='6/C05', technique='Coq proof (torn-append / valid-prefix recovery on bytes) + exhaustive crash-image enumeration through an FS tap',
-             note="Directory-level step orders are explored by enumeration of the implementation's own FS events (every step, every torn "
-                  "append) on a finite set of workloads, not proved. " + COMMON_NOTE),
+ 'C05': dict(text="Partial. Proved (Coq): (1) on one segment's bytes, for every checksum function: a crash part-way through the append "
+                  "of a record (any proper prefix of it on disk) after any number of complete records, whatever the index file holds, is "
+                  "recovered to exactly the complete records (published messages, possibly followed by a prefix of the batch); a crash "
+                  "between appends leaves the log file unchanged; whatever Recover returns consists only of valid records of the old "
+                  "file from its start; the result passes Check, a second Recover changes nothing, the file can be appended to and "
+                  "still passes Check. (2) on the directory (CrashDir.v): the in-place swap of delete-by-rewrite (remove index, rename "
+                  "log, rename index) and the removal of an emptied segment, for a segment anywhere in the directory - a process that "
+                  "dies after ANY prefix of these programs leaves a well-formed directory whose content is the log before or the log "
+                  "after the Delete (all or nothing), every index file absent or the derived one, and Open in any mode re-establishes "
+                  "Inv on it (hence all views agree). The swap of a REBASING delete is proved NOT to have this property (known finding "
+                  "F6: after its first step both the old and the rewritten segment exist). NOT proved: the step orders of rollover, of "
+                  "Recover's and Migrate's own temporary files, and of index.Write - decided by the crash harness only. Tied to /repo by "
+                  "the FS tap (tag verif): 40+ workloads (publish batches with rollover, all delete shapes, reopen with Recover, migrate), "
+                  "the file-system steps of every Delete compared with the program CrashDir.delete_prog computes for it, a directory "
+                  "image after every file-system step plus torn variants of every append; each image is opened with Recover on the "
+                  "implementation and on the model (loaded from the same bytes): full observation compared, acked-state oracle "
+                  "(published-and-not-deleted, prefix of in-flight batch, delete all-or-nothing), views agree, NextOffset monotone, "
+                  "second Recover identical, append + Check + recover again. Known findings F6 and F14; five other defects were fixed.",
+             ref='6/C05', technique='Coq proof (torn-append recovery on bytes; crash-safety of the swap programs on the directory) + exhaustive crash-image enumeration through an FS tap',
+             note="Rollover, Recover's and Migrate's temporary-file protocols are explored by enumeration of the implementation's own FS "
+                  "events (every step, every torn append) on a finite set of workloads, not proved. " + COMMON_NOTE),
  'C06': dict(text="Partial. Proved (Coq): a clean log file cut at ANY byte at or after its header (what a power loss leaves when it keeps a "
                   "prefix at least as long as the fsynced length) is recovered to exactly the records lying entirely below the cut: a prefix "
                   "of what was written, containing every record below the synced length; the result is clean (Check passes, Recover "
